@@ -38,6 +38,7 @@ func runC13(l *core.Ledger) {
 	l.Rule("C13-D5", "Codec.Marshal and Codec.Unmarshal return an error for unsupported argument types")
 	l.Rule("C13-D9", "the text of a handler's status arrives as it was sent: it travels in a proto3 string, so either both sides apply an unconditional encode/decode pair that can carry arbitrary bytes, or nobody rewrites it (then text that is not valid UTF-8 cannot be marshalled: known finding); a rewrite on one side only, or under a content test on one side only, changes some texts")
 	l.Rule("C13-D8", "a decode that can report success has stored a freshly created message of the method's type into msg.Message (never nil on a success return)")
+	l.Rule("C13-D10", "the type of the decoded message is selected by the method name and the direction: every registry call, map lookup or memo consulted for the type that is instantiated into msg.Message is keyed by values that depend on both")
 	l.Rule("C13-D7", "decoding overwrites: the codec's unmarshal options do not set Merge, or every RecvMsg target is a newMessage result built between two receives")
 	l.Rule("C13-D6", "delivery of a message-carrying response is dominated by the match edge of a comparison of the reply's method with the method recorded in the router at registration")
 
@@ -144,6 +145,7 @@ func runC13(l *core.Ledger) {
 	c13D7(l, r)
 	c13D8(l, r, gum)
 	c13D9(l, r)
+	c13D10(l, r, gum)
 }
 
 // c13SliceTable verifies the side conditions of the b[mdLen:] entry.
@@ -878,4 +880,169 @@ func c13D9(l *core.Ledger, r *rt) {
 		}
 		l.Bad("C13-D9", "gorums.WrapMessage|receiver/status-rewrite", where, fmt.Sprintf("the status text is rewritten asymmetrically (server: %d rewrite(s), all unconditional: %v; client: %d, all unconditional: %v): some texts come out different from what the handler returned (e.g. an escape applied only to invalid UTF-8 but undone for every reply turns 'a%%20b' into 'a b')", len(server), uncond(server), len(client), uncond(client)))
 	}
+}
+
+// c13D10: the type that is instantiated into msg.Message is looked up under a
+// key that depends on the method *and* the direction. Client and server of one
+// process (every test, every node that is both) share the codec and whatever
+// package-level memo it keeps: a memo keyed by the method name alone hands the
+// request type to the reply decoder (or the other way round) from the second
+// frame on.
+func c13D10(l *core.Ledger, r *rt, gum *ssa.Function) {
+	if len(gum.Params) < 3 {
+		return
+	}
+	msg := gum.Params[2]
+	// what a value depends on (transitively, over-approximated: flow-insensitive through locals)
+	depends := func(roots []ssa.Value) (dir, meth bool) {
+		seen := map[ssa.Value]bool{}
+		var walk func(v ssa.Value, d int)
+		walk = func(v ssa.Value, d int) {
+			if v == nil || seen[v] || d > 60 {
+				return
+			}
+			seen[v] = true
+			switch x := v.(type) {
+			case *ssa.Const, *ssa.Global, *ssa.Function, *ssa.Builtin, *ssa.Parameter, *ssa.FreeVar:
+				return
+			case *ssa.FieldAddr:
+				if f := fieldOf(x.X.Type(), x.Field); f != nil {
+					switch f.Name() {
+					case "msgType":
+						dir = true
+					case "Method":
+						meth = true
+					}
+				}
+				walk(x.X, d+1)
+				return
+			case *ssa.Field:
+				if f := fieldOf(x.X.Type(), x.Field); f != nil {
+					switch f.Name() {
+					case "msgType":
+						dir = true
+					case "Method":
+						meth = true
+					}
+				}
+				walk(x.X, d+1)
+				return
+			case *ssa.Call:
+				cc := &x.Call
+				if cc.IsInvoke() && (cc.Method.Name() == "Input" || cc.Method.Name() == "Output") {
+					dir = true
+				}
+				if f := cc.StaticCallee(); f != nil && (f.Name() == "GetMethod") {
+					meth = true
+				}
+				if cc.IsInvoke() || cc.StaticCallee() == nil {
+					walk(cc.Value, d+1)
+				}
+				for _, a := range cc.Args {
+					walk(a, d+1)
+				}
+				return
+			case *ssa.Alloc:
+				for _, ref := range *x.Referrers() {
+					if st, ok := ref.(*ssa.Store); ok && st.Addr == ssa.Value(x) {
+						walk(st.Val, d+1)
+					}
+				}
+				return
+			}
+			if in, ok := v.(ssa.Instruction); ok {
+				for _, op := range in.Operands(nil) {
+					if op != nil && *op != nil {
+						walk(*op, d+1)
+					}
+				}
+			}
+		}
+		for _, v := range roots {
+			walk(v, 0)
+		}
+		return
+	}
+	n := 0
+	seen := map[ssa.Value]bool{}
+	var back func(v ssa.Value, d int)
+	lookup := func(v ssa.Value, what string, pos token.Pos, roots []ssa.Value) {
+		n++
+		dir, meth := depends(roots)
+		key := fmt.Sprintf("gorums.(Codec).gorumsUnmarshal/type-lookup#%d", n)
+		l.Check(dir && meth, "C13-D10", key, pos, what+" is keyed by the method and the direction",
+			fmt.Sprintf("%s selects the type that is instantiated into msg.Message, and its key depends on the method name: %v, on the direction (msgType / Input() / Output()): %v - a process that is client and server of a method (every test, every replica that also calls its peers) decodes replies with the request type or requests with the reply type once the other direction has filled the entry; the frame is rejected or its fields are misread, and the typed stubs' assertions panic", what, meth, dir))
+	}
+	back = func(v ssa.Value, d int) {
+		if v == nil || seen[v] || d > 40 {
+			return
+		}
+		seen[v] = true
+		switch x := v.(type) {
+		case *ssa.Phi:
+			for _, e := range x.Edges {
+				back(e, d+1)
+			}
+		case *ssa.Extract:
+			back(x.Tuple, d+1)
+		case *ssa.TypeAssert:
+			back(x.X, d+1)
+		case *ssa.MakeInterface:
+			back(x.X, d+1)
+		case *ssa.ChangeInterface:
+			back(x.X, d+1)
+		case *ssa.ChangeType:
+			back(x.X, d+1)
+		case *ssa.Lookup:
+			lookup(x, "a map lookup", x.Pos(), []ssa.Value{x.X, x.Index})
+		case *ssa.UnOp:
+			if x.Op != token.MUL {
+				return
+			}
+			switch a := x.X.(type) {
+			case *ssa.Alloc:
+				for _, ref := range *a.Referrers() {
+					if st, ok := ref.(*ssa.Store); ok && st.Addr == ssa.Value(a) {
+						back(st.Val, d+1)
+					}
+				}
+			case *ssa.IndexAddr:
+				lookup(x, "an indexed table", x.Pos(), []ssa.Value{a.X, a.Index})
+			}
+		case *ssa.Call:
+			cc := &x.Call
+			if cc.IsInvoke() && len(cc.Args) == 0 {
+				back(cc.Value, d+1) // New(), Interface(), Type() ...
+				return
+			}
+			if f := cc.StaticCallee(); f != nil && len(cc.Args) == 1 && f.Signature.Recv() != nil {
+				back(cc.Args[0], d+1) // a method without arguments on a concrete type
+				return
+			}
+			roots := append([]ssa.Value{}, cc.Args...)
+			if cc.IsInvoke() || cc.StaticCallee() == nil {
+				roots = append(roots, cc.Value)
+			}
+			name := sx.StaticCalleeName(cc)
+			if name == "" && cc.IsInvoke() {
+				name = cc.Method.Name()
+			}
+			lookup(x, "the call of "+name, x.Pos(), roots)
+		}
+	}
+	sx.AllInstrs(gum, func(_ sx.Node, in ssa.Instruction) {
+		st, ok := in.(*ssa.Store)
+		if !ok {
+			return
+		}
+		base, ok := fieldAddrOf(st.Addr, "Message")
+		if !ok || !sx.All(sx.Origins(base), sx.IsParam(msg)) {
+			return
+		}
+		if k, isC := st.Val.(*ssa.Const); isC && k.IsNil() {
+			return
+		}
+		back(st.Val, 0)
+	})
+	l.Floor("C13-D10", n, 1, "lookups that select the type of the decoded message")
 }
